@@ -325,11 +325,11 @@ def _rest_after_r2(ctx, core, cg, G_holder=None):
     c13_.this_pairing(ctx, "C03.R6", core)
     c04_.free_variable_rule(ctx, "C03.R6", core, only=lambda k_: k_.startswith("binder["))
     scope_chain_rule(ctx, "C03.R7", core)
-    # parameters and do-block locals shadow outer names in the source text emitted for a function, too
-    ctx.rule("C03.R8", "a function parameter or do-block local that shadows a captured outer name keeps shadowing it in the source emitted for the function (output / to_string / JSON): the inliner removes every binder's names - parameters of every kind by their name, not their printed form - from the values it substitutes", floor=2)
+    # parameters shadow outer names in the source text emitted for a function, too (do-block locals in emitted source: C05.R8, a listed finding there)
+    ctx.rule("C03.R8", "a function parameter that shadows a captured outer name keeps shadowing it in the source emitted for the function (output / to_string / JSON): the inliner removes the parameters of a nested function - of every kind, by their name, not their printed form - from the values it substitutes", floor=1)
     from rules import printers as P_
     from rules.c04 import _Only
-    P_.R8_binders(_Only(ctx, lambda k_: k_.startswith("binder=")), "C03.R8", core)
+    P_.R8_binders(_Only(ctx, lambda k_: k_.startswith("binder=Expr::Lambda")), "C03.R8", core)
 
 
 def scope_chain_rule(ctx, rid, core):
